@@ -16,6 +16,7 @@ pub fn subs() -> Vec<Sub> {
         Sub { name: "header", run: run_header },
         Sub { name: "body", run: run_body },
         Sub { name: "backends", run: run_backends },
+        Sub { name: "adjacent", run: run_adjacent },
     ]
 }
 
@@ -244,6 +245,58 @@ fn run_backends(ctx: &Ctx) -> CheckResult {
     ctx.note(format!("body-distance backends executed: {}", available.join("; ")));
     ctx.ev.borrow_mut().sample(json!({"check": "backends", "available": available}));
     ctx.exhaustive("256x256 values of every body byte position on every compiled body-distance backend");
+    Ok(())
+}
+
+/// Cross-byte lane adjacency: for every boundary between body bytes p and p+1, all 4x4 x 4x4
+/// combinations of (top dibit of byte p, low dibit of byte p+1) in a and b, on zero and random
+/// backgrounds, through the public API and every compiled backend.  (The per-byte sweeps
+/// enumerate the four dibits INSIDE a byte jointly; bit-sliced code shifts across byte
+/// borders inside its 32/64-bit words, which only this sweep enumerates.)
+fn run_adjacent(ctx: &Ctx) -> CheckResult {
+    let live = Cell::new(true);
+    let hooks = ctx.api.caps().hooks;
+    for va in ctx.api.variants() {
+        let v = va.v();
+        let hdr = v.ck + 2;
+        let mut bgs = vec![(vec![0u8; v.size()], vec![0u8; v.size()])];
+        bgs.extend(ctx.sample_values(&format!("adjbg/{}", v.name), ctx.tier.pick(2, 8), &(proptest::collection::vec(any::<u8>(), v.size()), proptest::collection::vec(any::<u8>(), v.size()))));
+        let mut jobs = Vec::new();
+        for bi in 0..bgs.len() {
+            for p in hdr..v.size() - 1 {
+                jobs.push((bi, p));
+            }
+        }
+        let res = par_map(ctx.threads, &jobs, |&(bi, p)| -> Option<(Vec<u8>, Vec<u8>)> {
+            let st = CaseStats::null();
+            let (mut a, mut b) = (bgs[bi].0.clone(), bgs[bi].1.clone());
+            for k in 0..256u32 {
+                // k = (xa_hi, xb_hi, ya_lo, yb_lo) two bits each
+                let (xa, xb, ya, yb) = ((k & 3) as u8, ((k >> 2) & 3) as u8, ((k >> 4) & 3) as u8, ((k >> 6) & 3) as u8);
+                a[p] = (a[p] & 0x3f) | (xa << 6);
+                b[p] = (b[p] & 0x3f) | (xb << 6);
+                a[p + 1] = (a[p + 1] & 0xfc) | ya;
+                b[p + 1] = (b[p + 1] & 0xfc) | yb;
+                if case_pair(va, &a, &b, hooks, &st).is_err() {
+                    return Some((a, b));
+                }
+            }
+            None
+        });
+        {
+            let mut ev = ctx.ev.borrow_mut();
+            ev.evaluations += jobs.len() as u64 * 256 * 4;
+            ev.nontrivial_enumerated += jobs.len() as u64 * 240;
+        }
+        ctx.subcheck("adjacent", jobs.len() as u64 * 256);
+        if let Some((a, b)) = res.into_iter().flatten().next() {
+            let st = ctx.stats("adjacent", &live);
+            let msg = case_pair(va, &a, &b, hooks, &st).err().unwrap_or_else(|| "mismatch did not reproduce".into());
+            return Err(ctx.violation("adjacent", msg, pair_json(v, &a, &b)));
+        }
+    }
+    ctx.ev.borrow_mut().sample(json!({"check": "adjacent", "note": "every body byte boundary x 256 combinations of the two adjacent dibits in both hashes"}));
+    ctx.exhaustive("all 256 combinations of the two dibits adjacent across every body byte boundary, on zero and random backgrounds, public API and every backend");
     Ok(())
 }
 
